@@ -311,8 +311,8 @@ class BasicContiguousElement
             }
             else
             {
-                destruct();
-                memory_ = other.memory_;
+                // allocate memory first because it might throw
+                memory_.copy_assign(other.memory_, [&] { destruct(); });
                 store_and_construct_reference_inplace(other.reference_, other.reference_.size_in_bytes());
             }
         }
